@@ -114,6 +114,7 @@ def build_unit(work, name, u):
     if u.get('stubs'):
         sf = os.path.join(work, name + '.stubs'); open(sf, 'w').write('\n'.join(u['stubs'])); cmd += ['--stubfile', sf]
     if u.get('globals'): cmd += ['--globals', ','.join(u['globals'])]
+    if u.get('resumable'): cmd += ['--resumable', ','.join(u['resumable'])]
     r = sh(cmd)
     if r.returncode: raise Broken('ir2c failed for unit %s:\n%s' % (name, r.stdout[-3000:]))
     inf = json.load(open(info)); inf['seconds'] = round(time.time() - t0, 2); inf['mode'] = mode; inf['source'] = ', '.join(srcs)
@@ -124,7 +125,7 @@ def cbmc_run(work, tag, files, defs, opts, timeout, memgb):
     """run cbmc with --json-ui; returns dict(status, props=[{name,desc,status,loc}], traces={name: trace}, seconds, rss_mb, out)"""
     out = os.path.join(work, tag + '.json'); tm = os.path.join(work, tag + '.time')
     cmd = ['cbmc'] + files + ['-I', MODELS, '-I', HARNESS, '-I', work] + ['-D%s=%s' % (k, v) if v is not None else '-D' + k for k, v in defs.items()]
-    cmd += opts + ['--json-ui', '--trace']
+    cmd += opts + ['--json-ui', '--trace', '--stop-on-fail']
     shcmd = 'ulimit -v %d; exec /usr/bin/time -o %s -f "%%M %%e" %s > %s 2>&1' % (int(memgb * 1024 * 1024), tm, ' '.join("'%s'" % c for c in cmd), out)
     t0 = time.time()
     try:
@@ -154,6 +155,14 @@ def cbmc_run(work, tag, files, defs, opts, timeout, memgb):
                 res['props'].append({'name': pr['property'], 'desc': pr['description'], 'status': pr['status'],
                                      'loc': '%s:%s %s' % (os.path.basename(loc.get('file', '?')), loc.get('line', '?'), loc.get('function', ''))})
                 if 'trace' in pr: res['traces'][pr['property']] = pr['trace']
+        if 'property' in item and 'status' in item and 'result' not in item:   # --stop-on-fail: the single failing property
+            loc = item.get('sourceLocation', {})
+            if not loc and item.get('trace'):
+                for st in reversed(item['trace']):
+                    if st.get('sourceLocation'): loc = st['sourceLocation']; break
+            res['props'].append({'name': item['property'], 'desc': item['description'], 'status': item['status'],
+                                 'loc': '%s:%s %s' % (os.path.basename(loc.get('file', '?')), loc.get('line', '?'), loc.get('function', ''))})
+            if 'trace' in item: res['traces'][item['property']] = item['trace']
         if 'cProverStatus' in item:
             res['status'] = {'success': 'SUCCESS', 'failure': 'FAILURE'}.get(item['cProverStatus'], 'ERROR')
     nb = [m for m in msgs if 'no body for' in m]
@@ -376,7 +385,7 @@ def do_check(spec, pid, tier, seed, work, a, t_start):
     tv_total = 0; tv_runs = []
     lock = threading.Lock()
 
-    def files_of(h): return [units[u]['c'] for u in h['units']] + [os.path.join(HARNESS, h['file'])]
+    def files_of(h): return ([] if h.get('include_units') else [units[u]['c'] for u in h['units']]) + [os.path.join(HARNESS, h['file'])]
 
     def run_one(h, kind, finding=None):
         """kind: 'main' | 'witness' | 'confirm'"""
@@ -421,10 +430,10 @@ def do_check(spec, pid, tier, seed, work, a, t_start):
         for (h, kind, f), fu in zip(jobs, futs):
             r = fu.result(); results.append((h, kind, f, r))
 
-    n_oblig = 0; n_nontriv = 0
+    n_oblig = 0; n_nontriv = 0; witness_other = set()
     for h, kind, f, r in results:
         q = {'harness': h['name'], 'kind': kind, 'bound': h.get('bound', ''), 'unwind': h.get('unwind', 10), 'status': r['status'],
-             'properties': len(r['props']), 'failed': sum(1 for p in r['props'] if p['status'] == 'FAILURE'),
+             'properties': len(r['props']), 'failed': sum(1 for p in r['props'] if p['status'] in ('FAILURE', 'failed')),
              'seconds': r['seconds'], 'rss_mb': r['rss_mb'], 'solver': 'cbmc/minisat' if not any('sat-solver' in o for o in h.get('opts', [])) else 'cbmc/' + ' '.join(h['opts']),
              'vars': r.get('vars'), 'clauses': r.get('clauses'), 'defines': ' '.join(sorted(r.get('defs', {}).keys()))}
         if f: q['finding'] = f['id']
@@ -434,11 +443,14 @@ def do_check(spec, pid, tier, seed, work, a, t_start):
             if kind == 'confirm': continue
             broken.append('%s/%s: %s %s' % (h['name'], kind, r['status'], r.get('err', '')[:600]))
             continue
+        for p in r['props']:
+            if p['status'] in ('failed', 'FAILED'): p['status'] = 'FAILURE'
         failed = [p for p in r['props'] if p['status'] == 'FAILURE']
         if kind == 'witness':
             wit = [p for p in failed if 'witness' in p['desc'].lower()]
             if not wit:
-                broken.append('%s: vacuous harness (witness assertion not reachable)' % h['name'])
+                if failed: witness_other.add(h['name'])    # another assertion failed first (stop-on-fail): the main run reports it
+                else: broken.append('%s: vacuous harness (witness assertion not reachable)' % h['name'])
             else:
                 n_nontriv += 1
                 tr = r['traces'].get(wit[0]['name'])
@@ -513,8 +525,22 @@ def replay_record(native, spec, h, rec, work):
     rp = h['replay']
     tag = 'rp_' + h['name']
     defs = dict(rec.get('defs') or h.get('defs', {}))
-    exe = native.build_real(tag, os.path.join(HARNESS, h['file']), defs, rp['real'], rp.get('shim', ()))
     rf = os.path.join(work, tag + '.in'); write_replay_file(rf, [tuple(x) for x in rec['inputs']])
+    if rp.get('program'):
+        # stand-alone C++ replay driver (real threads / real API), linked with the listed real sources
+        exe = os.path.join(work, tag + '.prog')
+        if not os.path.exists(exe):
+            srcs = [os.path.join(VERIF, rp['program'])] + [x.replace('/repo/', REPO + '/') for x in rp.get('real', [])]
+            r = sh(['g++', '-O1', '-g', '-fsanitize=address,undefined', '-fno-sanitize=vptr', '-fno-sanitize-recover=undefined'] + CXXDEFS + ['-w'] + srcs + ['-o', exe, '-lpthread'])
+            if r.returncode: raise Broken('replay program failed to build:\n%s' % r.stdout[-2000:])
+        env = dict(os.environ); env['VP_REPLAY'] = rf; env['ASAN_OPTIONS'] = 'detect_leaks=0:exitcode=66'; env['UBSAN_OPTIONS'] = 'halt_on_error=1:exitcode=67'
+        args = [str(defs.get(k, '')) for k in rp.get('args', [])]
+        try:
+            p = subprocess.run([exe] + args, env=env, stdout=subprocess.PIPE, stderr=subprocess.PIPE, timeout=rp.get('timeout', 20))
+            return classify_native(p.returncode, p.stdout.decode('latin1'), p.stderr.decode('latin1'))
+        except subprocess.TimeoutExpired:
+            return classify_native('timeout', '', '')
+    exe = native.build_real(tag, os.path.join(HARNESS, h['file']), defs, rp['real'], rp.get('shim', ()))
     rc, out, err = run_native(exe, replay_file=rf, timeout=rp.get('timeout', 10))
     ok, why = classify_native(rc, out, err)
     return ok, why
